@@ -255,7 +255,7 @@ PROPS = {'C18': {'title': 'Inflights window is a bounded FIFO under resizing',
          'cone': {'P': [], 'S': ['raft']},
          'bounded': []},
  'C05': {'title': 'Log matching; leaders append-only; committed prefix immutable',
-         'modules': ['top', 'prelude', 'pb', 'inflights', 'progress', 'quorum', 'tracker', 'log_unstable', 'storage_trait', 'raft_log', 'raft'],
+         'modules': ['top', 'prelude', 'pb', 'inflights', 'progress', 'quorum', 'tracker', 'log_unstable', 'storage_trait', 'raft_log', 'raft', 'raw_node'],
          'body': {'P': ['log_unstable', 'raft_log'], 'S': ['log_unstable', 'raft_log']},
          'modes': ['P', 'S'],
          'claim': 'PARTIAL (per node and per call: acceptance rule, truncation point, immutability of the committed prefix)',
@@ -271,7 +271,7 @@ PROPS = {'C18': {'title': 'Inflights window is a bounded FIFO under resizing',
                          '(verif_ri_*)',
                          'specified helpers for std / protobuf calls (R9) and the three cut texts (R10) listed in the evidence file',
                          'R10: the stamping loop of append_entry'],
-         'cone': {'P': [], 'S': ['raft']},
+         'cone': {'P': [], 'S': ['raft', 'raw_node']},
          'bounded': ['mon_c14',
                      'mon_cluster --prop C05: log matching between every pair of nodes',
                      'K-ext c13_try_batching (Kani + native enumeration): every MsgAppend in the outbox stays a contiguous run anchored at its own index after '
@@ -343,7 +343,19 @@ PROPS = {'C18': {'title': 'Inflights window is a bounded FIFO under resizing',
                          'derive(Clone) of tracker::Configuration copies the sets (R9)',
                          'protobuf ConfChangeSingle / ConfChangeType stubs']},
  'C15': {'title': 'Snapshot install and log compaction preserve state and safety',
-         'modules': ['top', 'prelude', 'pb', 'inflights', 'progress', 'quorum', 'tracker', 'log_unstable', 'storage_trait', 'raft_log', 'raft', 'raw_node'],
+         'modules': ['top',
+                     'prelude',
+                     'pb',
+                     'inflights',
+                     'progress',
+                     'quorum',
+                     'tracker',
+                     'confchange',
+                     'log_unstable',
+                     'storage_trait',
+                     'raft_log',
+                     'raft',
+                     'raw_node'],
          'body': {'P': ['log_unstable', 'raft_log', 'progress'], 'S': ['log_unstable', 'raft_log', 'progress']},
          'modes': ['P', 'S'],
          'claim': 'PARTIAL (install decision, log/commit effect, request rule, leader-side send/resume rules)',
@@ -361,7 +373,7 @@ PROPS = {'C18': {'title': 'Inflights window is a bounded FIFO under resizing',
                          'contract over a byte-keyed view of its table: the five std HashMap operations with Vec<u8> / &[u8] keys are specified helpers '
                          '(verif_ri_*)',
                          'specified helpers for std / protobuf calls (R9) and the three cut texts (R10) listed in the evidence file'],
-         'cone': {'P': [], 'S': ['raft', 'raw_node', 'tracker']},
+         'cone': {'P': [], 'S': ['raft', 'raw_node', 'tracker', 'confchange']},
          'bounded': []},
  'C09': {'title': 'Membership changes: one at a time, config is a function of applied log',
          'modules': ['top',
